@@ -210,7 +210,7 @@ def gen_mesh_layout():
         pm = re.fullmatch(r'(\w+)(?:\s*:\s*(\w+))?', part)
         var_field[pm.group(2) or pm.group(1)] = pm.group(1)
     # ---------------- decoder ----------------
-    if not re.match(ws(r'\{ let binary = decompress::decompress\(binary\)\.unwrap\(\); let Ok\(data\) = bincode::deserialize::<MeshData>\(&binary\) else \{ return Mesh::new\( PrimitiveTopology::(\w+), RenderAssetUsages::MAIN_WORLD \| RenderAssetUsages::RENDER_WORLD, \); \};'), dec):
+    if not re.match(ws(r'\{ let Some\(data\) = decompress::decompress\(binary\) \.ok\(\) \.and_then\(\|binary\| bincode::deserialize::<MeshData>\(&binary\)\.ok\(\)\) else \{ return Mesh::new\( PrimitiveTopology::(\w+), RenderAssetUsages::MAIN_WORLD \| RenderAssetUsages::RENDER_WORLD, \); \};'), dec):
         raise TranslateError('bin_to_mesh: decompress / deserialize prologue not in the expected shape')
     fallback = known(re.search(ws(r'return Mesh::new\( PrimitiveTopology::(\w+),'), dec).group(1), TOPOLOGIES, 'fallback topology')
     m = re.search(ws(r'let (\w+) = match data\.(\w+) \{(.*?)\}; let mut mesh = Mesh::new\( (\w+), RenderAssetUsages::MAIN_WORLD \| RenderAssetUsages::RENDER_WORLD, \);'), dec, re.S)
@@ -333,7 +333,7 @@ def gen_image_layout():
             raise TranslateError('image_to_bin: field %s is initialised from `%s`, which is not modelled' % (f, expr))
     if sorted(f for f, _ in enc_sources) != sorted(f for f, _ in fields):
         raise TranslateError('image_to_bin: struct literal does not initialise exactly the fields of ImageData')
-    m = re.fullmatch(ws(r'\{ let bin = decompress::decompress\(bin\)\.unwrap\(\); let img = bincode::deserialize::<ImageData>\(&bin\)\.ok\(\)\?; let (\w+) = match img\.(\w+) \{(.*?)\}; Some\(Image::new\( Extent3d \{ width: img\.(\w+), height: img\.(\w+), depth_or_array_layers: img\.(\w+), \}, (\w+), img\.(\w+), img\.(\w+), RenderAssetUsages::RENDER_WORLD \| RenderAssetUsages::MAIN_WORLD, \)\) \}'), dec, re.S)
+    m = re.fullmatch(ws(r'\{ let bin = decompress::decompress\(bin\)\.ok\(\)\?; let img = bincode::deserialize::<ImageData>\(&bin\)\.ok\(\)\?; let (\w+) = match img\.(\w+) \{(.*?)\}; Some\(Image::new\( Extent3d \{ width: img\.(\w+), height: img\.(\w+), depth_or_array_layers: img\.(\w+), \}, (\w+), img\.(\w+), img\.(\w+), RenderAssetUsages::RENDER_WORLD \| RenderAssetUsages::MAIN_WORLD, \)\) \}'), dec, re.S)
     if not m:
         raise TranslateError('bin_to_image: not in the expected shape')
     if m.group(7) != m.group(1):
